@@ -92,7 +92,8 @@ func run(c *vk.Ctx, can *rig.Canary, sc scen, idx int) {
 		}
 		return false
 	}
-	key := func(what string) string { return fmt.Sprintf("C09/%s/%s/N=%d/%s", what, sc.role, sc.n, sc.pattern) }
+	patternName := sc.pattern
+	key := func(what string) string { return fmt.Sprintf("C09/%s/%s/N=%d/%s", what, sc.role, sc.n, patternName) }
 	// reference instant: the last inbound message (the peer's Logon)
 	lastIn := time.Now()
 	nontrivial := false
@@ -114,6 +115,13 @@ func run(c *vk.Ctx, can *rig.Canary, sc scen, idx int) {
 		return rig.Frame{}, false
 	}
 
+	if sc.pattern == "second-message-then-silence" {
+		// a second inbound message T/20 after the Logon: the silence is measured from IT
+		time.Sleep(T / 20)
+		lastIn = feed()
+		sc.pattern = "total-silence"
+		defer func() { sc.pattern = "second-message-then-silence" }()
+	}
 	switch sc.pattern {
 	case "total-silence":
 		tr, ok := awaitTestRequest(lastIn, 0)
@@ -269,7 +277,7 @@ func run(c *vk.Ctx, can *rig.Canary, sc scen, idx int) {
 
 func main() {
 	c := vk.Init("C09")
-	c.Rule("full-stack sessions, both roles, N in {1,2} (quick) + {5,20,40} (thorough; N=40 exercises the N/20 branch), T = N + max(1,N/20); inbound patterns: total silence; silence ending 0.3 s before the deadline; a message (Heartbeat / application / unknown type / TestRequest) arriving 2%, 10%, 50%, 85% into the second period; steady traffic with period 0.95 N for 12 periods. Oracle: silence => TestRequest within T + T/10 + slack of the last inbound message (and not before T), then EventDisconnect, OnStopped/OnDisconnect, net.Conn.Close (and Serve return) within T + T/10 + slack of the TestRequest (and not before T); an inbound message of any type in the second period finds the session connected, buys another period, and renewed silence is probed again with a second TestRequest before any disconnect; live peers see no TestRequest and no disconnect. slack = 100 ms + 3 x measured scheduler oversleep. distinct = (role, N, pattern, answer type); non-trivial = a timer expiry or a cancelled expiry was observed")
+	c.Rule("full-stack sessions, both roles, N in {1,2} (quick) + {5,20,40} (thorough; N=40 exercises the N/20 branch), T = N + max(1,N/20); inbound patterns: total silence; a second message T/20 after the Logon and then silence (measured from that message); silence ending 0.3 s before the deadline; a message (Heartbeat / application / unknown type / TestRequest) arriving 2%, 10%, 50%, 85% into the second period; steady traffic with period 0.95 N for 12 periods. Oracle: silence => TestRequest within T + T/10 + slack of the last inbound message (and not before T), then EventDisconnect, OnStopped/OnDisconnect, net.Conn.Close (and Serve return) within T + T/10 + slack of the TestRequest (and not before T); an inbound message of any type in the second period finds the session connected, buys another period, and renewed silence is probed again with a second TestRequest before any disconnect; live peers see no TestRequest and no disconnect. slack = 100 ms + 3 x measured scheduler oversleep. distinct = (role, N, pattern, answer type); non-trivial = a timer expiry or a cancelled expiry was observed")
 	c.Assume("reference instant of an inbound message = the moment it was handed to the scripted connection (the library's Read returns it within microseconds)")
 	can := rig.StartCanary()
 	defer can.Stop()
@@ -282,11 +290,11 @@ func main() {
 	k := 0
 	for _, role := range []rig.Role{rig.Acceptor, rig.Initiator} {
 		for _, n := range ns {
-			for _, p := range []string{"total-silence", "ends-just-before-deadline", "ends-just-after-deadline", "answer-10%", "answer-50%", "answer-90%", "steady-traffic"} {
+			for _, p := range []string{"total-silence", "second-message-then-silence", "ends-just-before-deadline", "ends-just-after-deadline", "answer-10%", "answer-50%", "answer-90%", "steady-traffic"} {
 				if p == "steady-traffic" && n > 5 {
 					continue
 				}
-				if c.Thorough() && p != "total-silence" && p != "steady-traffic" {
+				if c.Thorough() && p != "total-silence" && p != "steady-traffic" && p != "second-message-then-silence" {
 					for _, a := range answers {
 						scs = append(scs, scen{role, n, p, a})
 					}
